@@ -154,6 +154,11 @@ def run(ctx):
     for f in fails:
         ctx.failing_input(f[1], f[2], f[3], f[4])
     ctx.log("search: %d evaluations, %d failing inputs" % (sev, len(fails)))
+    ctx.notes["hygiene_oracles"] = (
+        "every checked call runs on an exact-capacity copy and on a sub-slice with 24 guard bytes (harness/c14/main.go call); "
+        "hygABA: after every call the previous call (any function) and the previous call of the same function are asked AGAIN on "
+        "fresh copies of their inputs (depends-on-earlier-calls) and the slices the library returned for them - and for the "
+        "current call after the re-asks - are re-read (result-changed-by-later-calls: scratch storage, cursors, caches)")
     if mism_tot and not fails:
         ctx.violation({"kind": "correspondence-mismatch", "correspondence": "C14Model vs avc/hevc (harness c14 corr)",
                        "mismatches": mism_tot, "first_case": first_mism[0], "model_says": first_mism[1]},
